@@ -15,7 +15,9 @@ theorem copier_remote (s : State) (inB : Bool) (src dest : Bytes) :
 theorem copy_remote (s : State) (a b : Bytes) : (copy s a b).1.remote = s.remote := by
   unfold copy
   simp only []
-  rw [copier_remote]
+  split
+  · rfl
+  · rfl
 
 theorem stepCache_remote (s : State) (op : Op) : (stepCache s op).1.remote = s.remote := by
   cases op <;> simp only [stepCache]
